@@ -314,14 +314,45 @@ func runSlots(cfg slCfg, events []slEvent) (sig, what string) {
 		for _, w := range want {
 			pend[w] = true
 		}
+		start := time.Now()
+		// A slot is handed back by deferred calls that run after the handler has answered, so a request that
+		// arrives right after the answer of the previous one may still find the subnet counter at its limit and
+		// be dropped. That window is not a leak: the request is repeated (same logical event) a few times; a
+		// slot that is really lost keeps the request out every time.
+		retries := map[[2]int]int{}
 		for len(pend) > 0 {
+			var retry [][2]int
+			for w := range pend {
+				select {
+				case err := <-peers[w[0]-1].results[w[1]]:
+					if err != nil && retries[w] < 5 {
+						retries[w]++
+						retry = append(retry, w)
+					} else if err != nil {
+						return "c18:slots:handler-not-started", desc(i) + fmt.Sprintf(": rpc %v is refused (%v) on 6 attempts 20 ms apart although the model has a free slot for it (slot leaked)", w, err)
+					} else {
+						return "c18:slots:unexpected-answer", desc(i) + fmt.Sprintf(": rpc %v was answered before its handler was released", w)
+					}
+				default:
+				}
+			}
+			for _, w := range retry {
+				time.Sleep(20 * time.Millisecond)
+				if err := peers[w[0]-1].send(w[1]); err != nil {
+					return "c18:slots:send-failed", desc(i) + ": " + err.Error()
+				}
+			}
 			select {
 			case e := <-g.entered:
 				if !pend[e] {
 					return "c18:slots:unexpected-handler", desc(i) + fmt.Sprintf(": handler for rpc %v started although the limits do not admit it (model expects %v)", e, want)
 				}
 				delete(pend, e)
-			case <-time.After(20 * time.Second):
+			case <-time.After(50 * time.Millisecond):
+				// look at the result channels again
+				if time.Since(start) < 20*time.Second {
+					continue
+				}
 				return "c18:slots:handler-not-started", desc(i) + fmt.Sprintf(": handlers %v did not start within 20 s although a slot is free (back-pressured request lost or slot leaked)", keys(pend))
 			}
 		}
